@@ -250,6 +250,153 @@ def e_dedup(k: int) -> bool:
         return ok
 
 
+# --------------------------------------------------------------------------- destructive commands under listing faults (C02_d)
+LIST_EXCS = [lambda p: OSError(5, 'injected I/O error', str(p)), lambda p: PermissionError(13, 'injected EACCES', str(p))]
+
+
+def gc_list_fault_case(caller, op, which, exc_i, combo):
+    """A, B (shared key) and C (own key) each hold a snapshot in a Local repository; `caller` runs clean or deletes its own
+    snapshot while the `which`-th directory scan of that command fails. Whatever the command does (finish or raise), every
+    snapshot file still in the store must keep all the chunk objects it references."""
+    import replicat.backends.local as LB
+    U = users(True)
+    with world.scratch('c02l') as d:
+        rt.determinism(17)
+        root = d / 'repo'
+        root.mkdir()
+        (root / 'config').write_bytes(U.config)
+        be = LB.Local(str(root))
+        loop = rt.MiniLoop()
+        snaps = []
+        for i, u in enumerate('ABC'):
+            src = d / f'src{u}'
+            src.mkdir()
+            for name, data in FILESETS[(combo + i) % len(FILESETS)].items():
+                (src / name).write_bytes(data)
+            r = fresh_repo(U, u, be)
+            res = loop.run_until_complete(r.snapshot(paths=[src]))
+            snaps.append({'owner': u, 'name': res.name, 'locs': [r._chunk_digest_to_location(dg) for dg in res.chunks]})
+        state = {'n': 0, 'hit': 0}
+        real = os.scandir
+
+        def faulty(path):
+            i = state['n']
+            state['n'] += 1
+            if i == which:
+                state['hit'] += 1
+                raise LIST_EXCS[exc_i](path)
+            return real(path)
+
+        r = fresh_repo(U, caller, be)
+        raised = None
+        os.scandir = faulty
+        try:
+            try:
+                if op == 0:
+                    loop.run_until_complete(r.clean())
+                else:
+                    mine = [s['name'] for s in snaps if s['owner'] == caller]
+                    loop.run_until_complete(r.delete_snapshots(mine, confirm=False))
+            except Exception as e:
+                raised = e
+        finally:
+            os.scandir = real
+        present = {str(p.relative_to(root)).replace(os.sep, '/') for p in root.rglob('*') if p.is_file()}
+        for s in snaps:
+            listed = any(p.startswith('snapshots/') and p.endswith('-' + s['name']) for p in present)
+            if not listed:
+                continue
+            lost = [l for l in s['locs'] if l not in present]
+            if lost:
+                return False, (f"{['clean', 'delete'][op]} by {caller} with directory scan #{which} failing "
+                               f"({type(LIST_EXCS[exc_i]('x')).__name__}; command {'raised ' + type(raised).__name__ if raised else 'reported success'}): "
+                               f"snapshot of {s['owner']} is still in the store but lost {len(lost)} of its {len(s['locs'])} chunk objects"), state
+        return True, ('raised' if raised else 'ok'), state
+
+
+def e_gc_list_fault(k: int) -> bool:
+    """
+    pre: shard(3 * 2 * 32 * 2 * 2)[0] <= k < shard(3 * 2 * 32 * 2 * 2)[1]
+    post: _
+    """
+    ci, op, which, exc_i, combo = digits(k, [3, 2, 32, 2, 2])
+    with NoTracing():
+        ok, msg, st = gc_list_fault_case('ABC'[ci], op, which, exc_i, combo)
+        tick('e_gc_list_fault', ['ABC'[ci], op, which, exc_i, combo, st['hit'], msg[:6]])
+        if not ok:
+            _say(msg)
+        return ok
+
+
+# --------------------------------------------------------------------------- dedup under different rate limits (C07_d)
+_BIG = {}
+BIG_SIZES = [130_001, 300_007, 524_288, 1_200_000]
+RATES1 = [None, 4_000_000]                              # first snapshot (uploads everything: high limits only, real sleeps)
+RATES2 = [None, 150_000, 1_000_000, 4_000_000, 128_000]  # second snapshot of the unchanged data (expected to upload nothing)
+
+
+def big_users():
+    """Repository with 4096..16384-byte chunks; A = init, B = shared key added by A."""
+    if not _BIG:
+        from replicat.repository import Repository
+        rt.determinism(5)
+        be = rt.MemBackend()
+        a = Repository(be, concurrent=2, cache_directory=None)
+        with rt.silence():
+            init = rt.MiniLoop().run_until_complete(a.init(password=b'pa', settings=rt.fast_settings(chunking={'min_length': 4096, 'max_length': 16384})))
+            kb = rt.MiniLoop().run_until_complete(a.add_key(password=b'pb', shared=True, settings={'encryption': {'kdf': dict(rt.FAST_KDF)}})).new_key
+        _BIG['config'] = be.objs['config']
+        _BIG['keys'] = {'A': (b'pa', init.key), 'B': (b'pb', kb)}
+    return _BIG
+
+
+def dedup_rate_case(si, r1, r2, u1, u2, conc):
+    import random
+    from replicat.repository import Repository
+    U = big_users()
+    with world.scratch('c07r') as d:
+        rt.determinism(13)
+        be = rt.MemBackend({'config': U['config']})
+        loop = rt.MiniLoop()
+        repos = {}
+        for u in {u1, u2}:
+            r = Repository(be, concurrent=conc, cache_directory=None)
+            loop.run_until_complete(r.unlock(password=U['keys'][u][0], key=U['keys'][u][1]))
+            repos[u] = r
+        src = d / 'data'
+        src.mkdir()
+        (src / 'small').write_bytes(b'hello')
+        (src / 'zbig.bin').write_bytes(random.Random(si).randbytes(BIG_SIZES[si]))
+        s1 = loop.run_until_complete(repos[u1].snapshot(paths=[src], rate_limit=RATES1[r1]))
+        up1 = be.counts['upload_stream']
+        objs1 = {k for k in be.objs if k.startswith('data/')}
+        s2 = loop.run_until_complete(repos[u2].snapshot(paths=[src], rate_limit=RATES2[r2]))
+        up2 = be.counts['upload_stream'] - up1
+        objs2 = {k for k in be.objs if k.startswith('data/')}
+        if up2 != 0 or objs2 != objs1:
+            return False, (f'unchanged data ({BIG_SIZES[si]} bytes) snapshotted again with rate_limit={RATES2[r2]} (first: {RATES1[r1]}) '
+                           f'uploaded {up2} chunk(s), {len(objs2 - objs1)} new chunk objects')
+        if list(s2.chunks) != list(s1.chunks):
+            return False, 'second snapshot references a different chunk list'
+        return True, ''
+
+
+def e_dedup_rate(k: int) -> bool:
+    """A second snapshot of unchanged data uploads no chunk whatever rate limits the two runs use (chunk boundaries must not
+    depend on the throttling parameters), for files larger than every block size derived from the limit.
+    pre: shard(4 * 2 * 5 * 2 * 2)[0] <= k < shard(4 * 2 * 5 * 2 * 2)[1]
+    post: _
+    """
+    si, r1, r2, ui, ci = digits(k, [4, 2, 5, 2, 2])
+    with NoTracing():
+        u1, u2 = [('A', 'A'), ('A', 'B')][ui]
+        ok, msg = dedup_rate_case(si, r1, r2, u1, u2, [1, 3][ci])
+        tick('e_dedup_rate', [BIG_SIZES[si], RATES1[r1], RATES2[r2], u1, u2, [1, 3][ci]])
+        if not ok:
+            _say(msg)
+        return ok
+
+
 def e_dedup_hist(k: int) -> bool:
     """After any 3 snapshots (3 file sets x 3 users) + clean by each family: chunk objects of a family are exactly the
     distinct chunks its live snapshots reference, and a 4th snapshot repeating the 1st uploads nothing.
